@@ -277,6 +277,7 @@ struct Net {
 	/// snapshot index remembered by a `save` script step (the manager the application wrote last)
 	saved_idx: Vec<Option<usize>>,
 	node_cfgs: &'static Vec<NodeCfg<'static>>,
+	edges: Vec<(usize, usize)>,
 	txids: Arc<Mutex<HashMap<[u8; 32], (usize, usize, u64, bool)>>>,
 }
 
@@ -629,18 +630,33 @@ impl Net {
 		}
 	}
 
+	/// shortest path over the channel graph the network was built with (a line unless cfg.edges says otherwise)
+	fn path(&self, src: usize, dst: usize) -> Option<Vec<(usize, usize)>> {
+		let n = self.nodes.len();
+		let mut prev: Vec<Option<usize>> = vec![None; n];
+		let mut seen = vec![false; n];
+		let mut q = std::collections::VecDeque::new();
+		seen[src] = true; q.push_back(src);
+		while let Some(u) = q.pop_front() {
+			if u == dst { break; }
+			for (a, b) in self.edges.iter() {
+				let v = if *a == u { *b } else if *b == u { *a } else { continue };
+				if !seen[v] { seen[v] = true; prev[v] = Some(u); q.push_back(v); }
+			}
+		}
+		if !seen[dst] || src == dst { return None; }
+		let mut rev = Vec::new();
+		let mut cur = dst;
+		while let Some(p) = prev[cur] { rev.push((p, cur)); cur = p; }
+		rev.reverse();
+		Some(rev)
+	}
+
 	fn send(&mut self, src: usize, dst: usize, amt: u64) -> bool {
 		// route along the line src -> ... -> dst
-		let step: i64 = if dst > src { 1 } else { -1 };
 		let mut hops = Vec::new();
-		let mut cur = src as i64;
 		let final_cltv = 70u32;
-		let mut path_nodes = vec![];
-		while cur != dst as i64 {
-			let nxt = cur + step;
-			path_nodes.push((cur as usize, nxt as usize));
-			cur = nxt;
-		}
+		let path_nodes = match self.path(src, dst) { Some(p) => p, None => return false };
 		// fees: each intermediate node charges base 1000 + 0 ppm in test default? read from its config
 		let nh = path_nodes.len();
 		for (k, (a, b)) in path_nodes.iter().enumerate() {
@@ -862,17 +878,20 @@ impl Net {
 				let i = op["node"].as_u64().unwrap() as usize;
 				let which = op["which"].as_str().unwrap_or("oldest");
 				if i < n {
-					let mut pend = self.persisters[i].pending.lock().unwrap().clone();
-					if pend.is_empty() { did = false; } else {
+					let pend = self.persisters[i].pending.lock().unwrap().clone();
+					// optionally only the writes of the channel with `peer`
+					let only: Option<usize> = op["peer"].as_u64().and_then(|j| self.chan_ids.get(&(i.min(j as usize), i.max(j as usize))).cloned()).map(|cid| self.chan(&cid));
+					let cand: Vec<(usize, u64)> = pend.iter().filter(|x| only.map_or(true, |c| x.0 == c)).cloned().collect();
+					if cand.is_empty() { did = false; } else {
 						let pick: Vec<(usize, u64)> = match which {
-							"all" => pend.clone(),
-							"newest" => vec![pend[pend.len() - 1]],
-							"random" => vec![pend[rng.gen_range(0..pend.len())]],
-							_ => vec![pend[0]],
+							"all" => cand.clone(),
+							"newest" => vec![cand[cand.len() - 1]],
+							"random" => vec![cand[rng.gen_range(0..cand.len())]],
+							_ => vec![cand[0]],
 						};
 						for (c, id) in pick {
-							pend.retain(|x| *x != (c, id));
-							*self.persisters[i].pending.lock().unwrap() = pend.clone();
+							// (completing one write may release held updates, which add to the pending list)
+							self.persisters[i].pending.lock().unwrap().retain(|x| *x != (c, id));
 							let cid = self.chans.lock().unwrap()[c - 1];
 							self.ev(json!({"ev":"complete","node":i,"chan":c,"id":id}));
 							let _ = self.nodes[i].chain_monitor.chain_monitor.channel_monitor_updated(cid, id);
@@ -897,7 +916,16 @@ impl Net {
 					let back = if op["mgr"].as_str() == Some("saved") {
 						match self.saved_idx[i] { Some(k) => self.mgr_snaps[i].len() - 1 - k, None => 0 }
 					} else { op["mgr"].as_u64().unwrap_or(0) as usize };
-					self.crash(i, name == "reload", back, op["mon"].as_str().unwrap_or("durable"), rng);
+					// per-channel choice of the monitor write that landed, keyed by the peer's index
+					let mut by_chan: HashMap<usize, String> = HashMap::new();
+					if let Some(m) = op["mon_by_peer"].as_object() {
+						for (k, v) in m.iter() {
+							if let (Ok(j), Some(ch)) = (k.parse::<usize>(), v.as_str()) {
+								if let Some(cid) = self.chan_ids.get(&(i.min(j), i.max(j))).cloned() { by_chan.insert(self.chan(&cid), ch.to_string()); }
+							}
+						}
+					}
+					self.crash(i, name == "reload", back, op["mon"].as_str().unwrap_or("durable"), &by_chan, rng);
 				} else { did = false; }
 			},
 			"proj" => { let fin = op["final"].as_bool().unwrap_or(false); for i in 0..n { self.proj_ext(i, fin, false); } if fin { for i in 0..n { self.ev(json!({"ev":"fin","node":i})); } self.scorer_round_trip(); } },
@@ -948,7 +976,7 @@ impl Net {
 	/// Stop node `i` and restart it from persisted state. `reload`: latest manager, every monitor
 	/// write landed (C12). `crash`: the manager written `back` snapshots ago and, per channel, the
 	/// durable monitor (every completed write) or a later in-flight write that happened to land.
-	fn crash(&mut self, i: usize, reload: bool, back: usize, mon_choice: &str, rng: &mut StdRng) {
+	fn crash(&mut self, i: usize, reload: bool, back: usize, mon_choice: &str, by_chan: &HashMap<usize, String>, rng: &mut StdRng) {
 		let n = self.nodes.len();
 		// the node's peers lose the connection
 		for j in 0..n {
@@ -993,7 +1021,7 @@ impl Net {
 				None => *idxs.last().unwrap(),
 			};
 			let latest = *idxs.last().unwrap();
-			let pick = if reload { latest } else { match mon_choice {
+			let pick = if reload { latest } else { match by_chan.get(&c).map(|s| s.as_str()).unwrap_or(mon_choice) {
 				"latest" => latest,
 				"random" => { let cands: Vec<usize> = idxs.iter().filter(|x| **x >= durable).cloned().collect(); cands[rng.gen_range(0..cands.len())] },
 				_ => durable,
@@ -1032,13 +1060,13 @@ impl Net {
 
 	fn resolve_amount(&mut self, src: usize, dst: usize, a: &Value, rng: &mut StdRng) -> u64 {
 		if let Some(x) = a.as_u64() { return x; }
-		let step: i64 = if dst > src { 1 } else { -1 };
-		let nxt = (src as i64 + step) as usize;
+		let pth = match self.path(src, dst) { Some(p) => p, None => return 0 };
+		let nxt = pth[0].1;
 		let key = (src.min(nxt), src.max(nxt));
 		let cid = self.chan_ids[&key];
 		let cd = self.nodes[src].node.list_channels().into_iter().find(|c| c.channel_id == cid);
 		let (limit, min) = cd.map(|c| (c.next_outbound_htlc_limit_msat, c.next_outbound_htlc_minimum_msat)).unwrap_or((0, 0));
-		let hops = (dst as i64 - src as i64).unsigned_abs();
+		let hops = pth.len() as u64;
 		let extra = if hops > 1 { 1000 * (hops - 1) } else { 0 };
 		let dust_sat = 354u64;
 		match a.as_str().unwrap_or("big") {
@@ -1101,13 +1129,17 @@ fn build_net(run: u64, cfg: &Value, log: &Log) -> Net {
 	let mut scids = HashMap::new();
 	let mut chan_ids = HashMap::new();
 	let mut connected = HashMap::new();
-	for i in 0..n - 1 {
-		let (_, upd, cid, _tx) = create_announced_chan_between_nodes_with_value(&nodes, i, i + 1, value, push);
+	let edges: Vec<(usize, usize)> = match cfg["edges"].as_array() {
+		Some(es) => es.iter().map(|e| { let (a, b) = (e[0].as_u64().unwrap() as usize, e[1].as_u64().unwrap() as usize); (a.min(b), a.max(b)) }).collect(),
+		None => (0..n - 1).map(|i| (i, i + 1)).collect(),
+	};
+	for &(i, j) in edges.iter() {
+		let (_, upd, cid, _tx) = create_announced_chan_between_nodes_with_value(&nodes, i, j, value, push);
 		let _ = upd;
 		let scid = nodes[i].node.list_channels().iter().find(|c| c.channel_id == cid).unwrap().short_channel_id.unwrap();
-		scids.insert((i, i + 1), scid);
-		chan_ids.insert((i, i + 1), cid);
-		connected.insert((i, i + 1), true);
+		scids.insert((i, j), scid);
+		chan_ids.insert((i, j), cid);
+		connected.insert((i, j), true);
 	}
 	for c in cfgs.iter().skip(1) {
 		*c.fee_estimator.sat_per_kw.lock().unwrap() = 253;
@@ -1122,15 +1154,15 @@ fn build_net(run: u64, cfg: &Value, log: &Log) -> Net {
 	let mut net = Net {
 		nodes, cfgs, persisters, queues: HashMap::new(), connected, log: log.clone(), chans, hashes, points: Vec::new(),
 		pays: Vec::new(), scids, chan_ids, run, feerate: vec![feerate0; n], executed: 0, skipped: 0,
-		funding_txids: Vec::new(), extra_funding: Vec::new(), extra_broadcast: Vec::new(), mgr_snaps: vec![Vec::new(); n], mgr_clean: vec![Vec::new(); n], saved_idx: vec![None; n], node_cfgs, txids,
+		funding_txids: Vec::new(), extra_funding: Vec::new(), extra_broadcast: Vec::new(), mgr_snaps: vec![Vec::new(); n], mgr_clean: vec![Vec::new(); n], saved_idx: vec![None; n], node_cfgs, txids, edges: edges.clone(),
 	};
 	for i in 0..n {
 		let _ = net.nodes[i].node.get_and_clear_needs_persistence();
 		net.mgr_snaps[i].push(net.nodes[i].node.encode());
 		net.mgr_clean[i].push(true);
 	}
-	for i in 0..n - 1 {
-		let cid = net.chan_ids[&(i, i + 1)];
+	for &(i, j) in edges.iter() {
+		let cid = net.chan_ids[&(i, j)];
 		let c = net.chan(&cid);
 		if let Some(cd) = net.nodes[i].node.list_channels().iter().find(|x| x.channel_id == cid) {
 			if let Some(fo) = cd.funding_txo { net.funding_txids.push((fo.txid, c)); }
@@ -1138,14 +1170,14 @@ fn build_net(run: u64, cfg: &Value, log: &Log) -> Net {
 	}
 	// describe every channel from both ends
 	let mut chans_desc = Vec::new();
-	for i in 0..n - 1 {
-		let cid = net.chan_ids[&(i, i + 1)];
+	for &(i, j) in edges.iter() {
+		let cid = net.chan_ids[&(i, j)];
 		let c = net.chan(&cid);
 		let a = net.nodes[i].node.list_channels().into_iter().find(|x| x.channel_id == cid).unwrap();
-		let b = net.nodes[i + 1].node.list_channels().into_iter().find(|x| x.channel_id == cid).unwrap();
+		let b = net.nodes[j].node.list_channels().into_iter().find(|x| x.channel_id == cid).unwrap();
 		let latest = |p: &RecPersister| p.snapshots.lock().unwrap().iter().filter(|s| s.0 == c).map(|s| s.1).max().unwrap_or(0);
 		chans_desc.push(json!({
-			"chan": c, "a": i, "b": i + 1, "value_sat": value, "funder": i,
+			"chan": c, "a": i, "b": j, "value_sat": value, "funder": i,
 			"type": chan_type,
 			"feerate": a.feerate_sat_per_1000_weight.unwrap_or(0),
 			"bal_a_msat": value * 1000 - push, "bal_b_msat": push,
@@ -1154,7 +1186,7 @@ fn build_net(run: u64, cfg: &Value, log: &Log) -> Net {
 			"dust_a_sat": 354, "dust_b_sat": 354,
 			"htlc_min_a_msat": a.inbound_htlc_minimum_msat.unwrap_or(0),
 			"htlc_min_b_msat": b.inbound_htlc_minimum_msat.unwrap_or(0),
-			"mon_id_a": latest(&persisters[i]), "mon_id_b": latest(&persisters[i + 1]),
+			"mon_id_a": latest(&persisters[i]), "mon_id_b": latest(&persisters[j]),
 		}));
 	}
 	let policy: Vec<Value> = (0..n).map(|i| { let c = net.nodes[i].node.get_current_config().channel_config;
